@@ -39,6 +39,7 @@ def check(repo, col, tier):
     _memo(repo, col)
     col.rule("R-C18-tracer", "what integrate stores on the module is computed outside of tracing (no leaked tracer)", 2)
     _tracer(repo, col)
+    _state_arguments(repo, col)
 
 
 def _self(t: T) -> bool:
@@ -601,8 +602,12 @@ def _share(repo, col):
         ex = idx.expander(repo, fi)
         for p in sorted(mutable):
             n += 1
-            bad = [s for s in ex.stores if s.kind == "attr" and s.base.op == "param" and s.base.name == "self" and
-                   s.value.op == "param" and s.value.name == p]
+            def on_module(b):
+                while b.op == "attr" and b.args:
+                    b = b.args[0]   # self.X = p  and  self.base.X = p
+                return b.op == "param" and b.name == "self"
+            bad = [s for s in ex.stores if s.kind == "attr" and on_module(s.base) and
+                   s.value is not None and s.value.op == "param" and s.value.name == p]
             col.check(not bad, R, fi, f"mutable default `{p}` of {fi.qual} is not stored on the instance", "",
                       f"`{unparse(bad[0].node) if bad else ''}` stores the shared default object: all instances (and their copies) "
                       f"share it", node=bad[0].node if bad else fi.node)
@@ -693,3 +698,80 @@ def _share(repo, col):
               "self.base = pointer.base", f"View stores {[s_.value.short(40) for s_ in bs]} as its base", node=vi.node)
     if n < 3:
         raise AnalysisError("sharing rule found too few instances")
+
+
+def _state_arguments(repo, col, R="R-C18-tracer"):
+    """Module.step hands parts of the module's OWN state to the voltage steppers (`"debug_states": self.debug_states`, the solve
+    indexer, the index arrays), and the steppers run while integrate is being traced.  A stepper that writes into such an argument
+    (`debug_states["vecfield"] = vecfield`) writes a tracer into the module: it outlives the trace, and the module can no longer be
+    pickled or deep-copied.  Every function that receives one of these objects -- directly or handed on by name -- only reads it."""
+    from sa.effects import MUTATORS
+    from sa.core import FuncInfo
+    fi = repo.method("Module", "step")
+    ex = idx.expander(repo, fi)
+    # keyword -> value for everything that reaches the steppers through the keyword dictionary
+    state_kw = {}
+    for n in walk_no_nested(fi.node):
+        pairs = []
+        if isinstance(n, ast.Dict):
+            pairs = [(k.value, v) for k, v in zip(n.keys, n.values) if isinstance(k, ast.Constant) and isinstance(k.value, str)]
+        elif isinstance(n, ast.Assign) and len(n.targets) == 1 and isinstance(n.targets[0], ast.Subscript) and isinstance(n.targets[0].slice, ast.Constant) \
+                and isinstance(n.targets[0].slice.value, str):
+            pairs = [(n.targets[0].slice.value, n.value)]
+        for k, v in pairs:
+            t = ex.term(v)
+            # the object itself (not a fresh array computed from it): self.X / self.X.Y
+            cur = t
+            while cur.op == "attr":
+                cur = cur.args[0]
+            if t.op == "attr" and _self(cur):
+                state_kw[k] = t
+    if len(state_kw) < 4:
+        raise AnalysisError(f"Module.step: only {sorted(state_kw)} recognised as module state handed to the steppers")
+    col.info["module_state_handed_to_steppers"] = sorted(state_kw)
+    SVF = "jaxley/solver_voltage.py"
+    work = []
+    for name in ("step_voltage_explicit", "step_voltage_implicit_with_jaxley_spsolve", "step_voltage_implicit_with_jax_spsolve"):
+        f = repo.func(SVF, name)
+        for p in f.params:
+            if p in state_kw:
+                work.append((f, p))
+    seen = set()
+    n = 0
+    while work:
+        f, p = work.pop()
+        if (f.qual, f.file, p) in seen:
+            continue
+        seen.add((f.qual, f.file, p))
+        exf = idx.expander(repo, f)
+
+        def root_is_p(t):
+            cur = t
+            while cur is not None and cur.op in ("attr", "sub") and cur.args:
+                cur = cur.args[0]
+            return cur is not None and cur.op == "param" and cur.name == p
+        writes = [s_ for s_ in exf.stores if s_.base is not None and root_is_p(s_.base) and
+                  (s_.kind in ("sub", "attr", "aug") or (s_.kind == "mcall" and s_.key is not None and s_.key.name in MUTATORS))]
+        n += 1
+        col.check(not writes, R, f, f"{f.qual}: `{p}` (module state handed in by Module.step) is only read",
+                  "no store into it",
+                  f"`{unparse(writes[0].node)[:80] if writes else ''}` writes into `{p}`, which is the module's own object: inside integrate the value "
+                  f"written is a tracer, it stays on the module after the trace, and pickle / deepcopy of the module fail", node=writes[0].node if writes else f.node)
+        for c in exf.calls:
+            if not isinstance(c.func, ast.Name):
+                continue
+            g = repo.resolve_name(repo.mods[f.file], c.func.id)
+            if not isinstance(g, FuncInfo) or g.cls is not None:
+                continue
+            names = [a_.arg for a_ in g.node.args.posonlyargs + g.node.args.args]
+            for i_, a_ in enumerate(c.args):
+                if isinstance(a_, ast.Name) and i_ < len(names):
+                    t_ = exf.term(a_)
+                    if t_.op == "param" and t_.name == p:
+                        work.append((g, names[i_]))
+            for k_ in c.keywords:
+                if k_.arg and isinstance(k_.value, ast.Name):
+                    t_ = exf.term(k_.value)
+                    if t_.op == "param" and t_.name == p and (k_.arg in names or k_.arg in [x.arg for x in g.node.args.kwonlyargs]):
+                        work.append((g, k_.arg))
+    col.info["state_argument_sites_checked"] = n
